@@ -327,9 +327,12 @@ def _check_fallback_match(tr, rep, b, g, c, V):
             continue
         n += 1
         # the result of the match: the Duration local written on both sides
+        r_ok, r_err = g.reach([sw.variants["Ok"]], kinds=(N,)), g.reach([sw.variants["Err"]], kinds=(N,))
+
         def written(tgt):
             out = set()
-            for y in g.reach([tgt], kinds=(N,)):
+            mine = (r_ok - r_err) if tgt == sw.variants["Ok"] else (r_err - r_ok)        # the arm itself, before the two sides join
+            for y in mine:
                 for s_ in g.stmts(y):
                     if s_["k"] == "assign" and not s_["lhs"]["p"] and "Duration" in b.local_ty(s_["lhs"]["l"])["s"] and "Result" not in b.local_ty(s_["lhs"]["l"])["s"]:
                         out.add(s_["lhs"]["l"])
@@ -345,7 +348,9 @@ def _check_fallback_match(tr, rep, b, g, c, V):
             cm = normalise_cmp(tr, peel(tr.expand(tr.operand(b, s2.cond, (b2, len(g.stmts(b2)))))))
             if cm and cm[0] in ("Gt", "Ge") and peel(cm[2])[0] == "const" and (x is None or peel(cm[1]) == x):
                 sign_false.append((b2, s2.variants["false"]))
-        r_ = g.reach([sw.variants["Err"]], kinds=(N,), avoid_edges=sign_false)
+            elif cm and cm[0] in ("Lt", "Le") and peel(cm[1])[0] == "const" and (x is None or peel(cm[2]) == x):
+                sign_false.append((b2, s2.variants["false"]))        # `0.0 < x`
+        r_ = g.reach([sw.variants["Err"]], kinds=(N,), avoid_edges=sign_false) - r_ok
         bad = []
         if res is not None:
             for y in r_:
